@@ -584,7 +584,11 @@ def _storage_wrapper(env: Env, op: str, orig: Callable[..., Any]) -> Callable[..
         if s3log is not None and cls == "hint" and op in ("read_file_with_etag", "write_file_cas") and len(s.trace) > n_ev0:
             # the specification reads the pointer together with its ETag / writes it conditionally in ONE atomic step:
             # that is only true of the code if the call is a single S3 request
-            s.trace[-1]["reqs"] = [e_["op"] for e_ in s3log[n_req0:]]
+            # (own requests only: a retried read sleeps between attempts and other actors run meanwhile; attempts that
+            #  failed before a later one succeeded are retries of the same step)
+            me_t = threading.current_thread().name
+            mine = [e_ for e_ in s3log[n_req0:] if e_.get("thread") == me_t]
+            s.trace[-1]["reqs"] = [e_["op"] for e_ in mine if err is not None or e_.get("status") == "ok"]
         if err is not None:
             raise err
         if isinstance(directive, Fault) and directive.when == "after":
